@@ -4,6 +4,7 @@ import copy
 from collections import ChainMap
 from ctypes import c_int32, c_uint32
 from functools import partial
+import keyword
 import logging
 import os
 import re
@@ -1182,6 +1183,15 @@ class Arithmetic(Expr):
                 expr = re.sub(r"'(\\x[0-9a-fA-F]{2}|\\u[0-9a-fA-F]{4}|\\[0-7]{1,3}|\\.|[^\\'])'", ordinal, expr)
             except (TypeError, UnicodeDecodeError):
                 raise AssemblerError('invalid char literal in expr: "{}"'.format(self.expr), line)
+
+        # a name the symbol tables know stands for its value, however Python would read
+        # its spelling (a label "A.real" is not an attribute of "A", "n\u00ba" is not "no")
+        def named(match):
+            word = match.group(0)
+            if word in env and type(env[word]) == int and not keyword.iskeyword(word) and not word[0].isdigit():
+                return '({})'.format(env[word])
+            return word
+        expr = re.sub(r'''[^\s()\[\]{}+\-*/%&|^~<>=!,:;'"@#]+''', named, expr)
 
         try:
             # exclude Python builtins from eval env
